@@ -197,6 +197,10 @@ def _support(spec, ctx):
     else:
         a, b = float(model._params['loc']), float(model._params['loc'] + model._params['scale'])
     span = b - a
+    if not span > 1e-9 * max(abs(a), abs(b), 1e-300):
+        # scipy's MLE diverged to a support that is a single point at floating-point resolution
+        ctx.note('fitted support narrower than 1e-9 of its location (inconclusive)')
+        return
     F = np.asarray(model.cumulative_distribution(np.array([a - span, a, b, b + span])), dtype=float)
     ctx.check(abs(F[0]) <= TOL_UNIV and abs(F[1]) <= TOL_UNIV and abs(F[2] - 1) <= TOL_UNIV and abs(F[3] - 1) <= TOL_UNIV,
               'support.bounds', 'C04:%s-mass-outside-support' % fam, lambda: dict(where, bounds=[a, b], cdf=F))
